@@ -200,6 +200,8 @@ def identity_and_batches(ctx, n):
 
 
 def correspondence(ctx):
+    from props import c07 as _c07
+    _c07.axes_stream(ctx, ctx.budget(30, 300), prefix="C06")
     from props import c07
     c07.dual_quadric_stream(ctx, ctx.budget(30, 300), prefix="C06")
     identity_and_batches(ctx, ctx.budget(8, 80))
